@@ -27,7 +27,7 @@ fn table() -> Vec<Prop> {
         run: props::c01::run,
         replay: props::c01::replay,
         rule: props::c01::RULE,
-        assumptions: &["a hang is reported only when one input stalls a private child process twice for 10 s (normal cases take microseconds); any other time-out is inconclusive", "workers run with RLIMIT_AS = 2 GiB (single-case children 1 GiB)"],
+        assumptions: &["a hang is reported only when one input stalls a private child process twice for 10 s (normal cases take microseconds); any other time-out is inconclusive", "workers run with RLIMIT_AS = 2 GiB (single-case children 1 GiB)", "two builds of the same harness source: release (overflow checks on, debug assertions off) and the same with -C debug-assertions=on (VERIF_BIN_DBG); the second build's cases are the same inputs and are not added to distinct_nontrivial"],
     },
     Prop {
         id: "C02",
@@ -198,6 +198,7 @@ fn main() {
             "--chunk" => props::c01::chunk_mode(&cfg, &rest),
             "--one" => props::c01::one_mode(&cfg, &rest),
             "--long" => props::c01::long_mode(&cfg, &rest),
+            "--config-child" => props::c01::child_mode(&cfg),
             _ => 2,
         };
         std::process::exit(code);
